@@ -29,49 +29,126 @@ class MachineryError(Exception):
 # Import redirects: (crate, file relative to src, old text, new text).  Only `use` statements.
 # Every entry must match exactly once.
 # ---------------------------------------------------------------------------------------------
-REDIRECTS = [
-    # ---- rawdb ----
-    ("rawdb", "lib.rs",
-     "use std::{\n    collections::HashSet,\n    fmt,\n    fs::{self, File, OpenOptions},\n    path::{Path, PathBuf},\n    sync::{\n        Arc, Weak,\n        atomic::{AtomicUsize, Ordering},\n    },\n    thread::{self, JoinHandle},\n    time::{Duration, Instant},\n};",
-     "use std::{\n    fmt,\n    path::{Path, PathBuf},\n    sync::{\n        atomic::{AtomicUsize, Ordering},\n    },\n    time::Duration,\n};\nuse PLAT::{collections::HashSet, fs::{self, File, OpenOptions}, sync::{Arc, Weak}, thread::{self, JoinHandle}, libc, time::Instant};"),
-    ("rawdb", "regions.rs",
-     "use std::{\n    collections::HashMap,\n    fs::{self, File, OpenOptions},\n    path::Path,\n    sync::Arc,\n};",
-     "use std::{\n    path::Path,\n};\nuse PLAT::{collections::HashMap, fs::{self, File, OpenOptions}, sync::Arc};"),
-    ("rawdb", "region.rs",
-     "use std::{fs::File, mem, sync::Arc};",
-     "use std::mem;\nuse PLAT::{fs::File, sync::Arc};"),
-    ("rawdb", "layout.rs",
-     "use std::{collections::BTreeMap, mem};",
-     "use std::mem;\nuse PLAT::collections::BTreeMap;"),
-    ("rawdb", "mmap.rs",
-     "use std::fs::File;",
-     "use PLAT::fs::File;"),
-    ("rawdb", "hole_punch.rs",
-     "use std::fs::File;",
-     "use PLAT::fs::File;\nuse PLAT::libc;"),
-    ("rawdb", "disk_usage.rs",
-     "use std::fs::File;",
-     "use PLAT::fs::File;\n#[allow(unused_imports)]\nuse PLAT::libc;"),
-    # ---- vecdb ---- (File handles cross the crate boundary: Region::open_db_read_only_file)
-    ("vecdb", "variants/raw/sources/io.rs",
-     "use std::{\n    fs::File,\n    io::{Read, Seek, SeekFrom},\n    marker::PhantomData,\n};",
-     "use std::{\n    io::{Read, Seek, SeekFrom},\n    marker::PhantomData,\n};\nuse PLAT::fs::File;"),
-    ("vecdb", "variants/compressed/sources/io.rs",
-     "use std::{\n    fs::File,\n    io::{Read, Seek, SeekFrom},\n    sync::Arc,\n};",
-     "use std::{\n    io::{Read, Seek, SeekFrom},\n    sync::Arc,\n};\nuse PLAT::fs::File;"),
-    ("vecdb", "variants/raw/inner/read_write/mod.rs",
-     "use std::{\n    collections::{BTreeMap, BTreeSet},\n    marker::PhantomData,\n};",
-     "use std::marker::PhantomData;\nuse PLAT::collections::{BTreeMap, BTreeSet};"),
-    ("vecdb", "variants/raw/inner/read_write/rollback.rs",
-     "use std::collections::BTreeSet;",
-     "use PLAT::collections::BTreeSet;"),
-    ("vecdb", "variants/raw/inner/read_write/change.rs",
-     "use std::collections::BTreeSet;",
-     "use PLAT::collections::BTreeSet;"),
-    ("rawdb", "lib.rs",
-     "            let ref_count = std::sync::Arc::strong_count(region.arc());",
-     "            let ref_count = Arc::strong_count(region.arc());"),
-]
+# Import redirection.  Instead of matching the text of whole `use` statements (which breaks as soon as a change
+# adds or removes one import), every top-level `use std::...;` statement of the files below is parsed into its leaf
+# paths; the leaves matching a rule move to the platform model crate, the others stay with std.  Fully qualified
+# mentions (`std::sync::Arc::strong_count`) are rewritten by the same rules.
+RAW_MOVED = [("collections", "HashMap"), ("collections", "HashSet"), ("collections", "BTreeMap"), ("collections", "BTreeSet"),
+             ("fs",), ("sync", "Arc"), ("sync", "Weak"), ("thread",), ("time", "Instant")]
+# rawdb: every source file except error.rs (it names std::fs::TryLockError, which the fs model returns unchanged)
+RAW_SKIP = {"error.rs"}
+RAW_EXTRA = {"lib.rs": ["libc"], "hole_punch.rs": ["libc"], "disk_usage.rs": ["libc"]}
+VEC_RULES = {
+    # File handles cross the crate boundary: Region::open_db_read_only_file
+    "variants/raw/sources/io.rs": [("fs", "File")],
+    "variants/compressed/sources/io.rs": [("fs", "File")],
+    "variants/raw/inner/read_write/mod.rs": [("collections", "BTreeMap"), ("collections", "BTreeSet")],
+    "variants/raw/inner/read_write/rollback.rs": [("collections", "BTreeSet")],
+    "variants/raw/inner/read_write/change.rs": [("collections", "BTreeSet")],
+}
+
+USE_RE = re.compile(r"^(?P<attrs>(?:[ \t]*#\[[^\n]*\]\n)*)(?P<indent>[ \t]*)(?P<vis>pub(?:\([^)]*\))?[ \t]+)?use[ \t\n]+std::(?P<body>[^;]*);", re.M)
+
+
+def _flatten_use(body):
+    """`fs::{self, File}, sync::{Arc, atomic::{A, B}}` -> [[fs,self],[fs,File],[sync,Arc],[sync,atomic,A],...]"""
+    pos = 0
+    n = len(body)
+
+    def ws():
+        nonlocal pos
+        while pos < n and body[pos] in " \t\n":
+            pos += 1
+
+    def tree(prefix):
+        nonlocal pos
+        out = []
+        ws()
+        if pos < n and body[pos] == "{":
+            pos += 1
+            while True:
+                ws()
+                if pos < n and body[pos] == "}":
+                    pos += 1
+                    break
+                out += tree(prefix)
+                ws()
+                if pos < n and body[pos] == ",":
+                    pos += 1
+            return out
+        m = re.compile(r"[A-Za-z_][A-Za-z0-9_]*|\*").match(body, pos)
+        if not m:
+            raise MachineryError("gentree: cannot parse use tree: " + body[:80])
+        seg = m.group(0)
+        pos = m.end()
+        ws()
+        if body.startswith("::", pos):
+            pos += 2
+            return tree(prefix + [seg])
+        m2 = re.compile(r"as[ \t\n]+([A-Za-z_][A-Za-z0-9_]*)").match(body, pos)
+        if m2:
+            seg = seg + " as " + m2.group(1)
+            pos = m2.end()
+        return [prefix + [seg]]
+
+    leaves = tree([])
+    ws()
+    if pos != n:
+        raise MachineryError("gentree: trailing text in use tree: " + body[:80])
+    return leaves
+
+
+def _is_moved(leaf, rules):
+    comps = [c.split(" as ")[0] for c in leaf]
+    for r in rules:
+        if tuple(comps[:len(r)]) == tuple(r):
+            return True
+        # a glob or `self` import of a parent of a moved item cannot be split
+        if comps[-1] == "*" and tuple(comps[:-1]) == tuple(r[:len(comps) - 1]):
+            raise MachineryError("gentree: glob import overlaps a redirected path: " + "::".join(leaf))
+    return False
+
+
+def _render(leaf):
+    if leaf[-1].split(" as ")[0] == "self" and len(leaf) > 1:
+        return "::".join(leaf[:-1]) + "::{" + leaf[-1] + "}"
+    return "::".join(leaf)
+
+
+def redirect_imports(text, rules, extra=()):
+    """Returns (new text, number of leaves moved)."""
+    moved_total = 0
+
+    def repl(m):
+        nonlocal moved_total
+        leaves = _flatten_use(m.group("body"))
+        keep = [l for l in leaves if not _is_moved(l, rules)]
+        move = [l for l in leaves if _is_moved(l, rules)]
+        if not move:
+            return m.group(0)
+        moved_total += len(move)
+        head = m.group("attrs") + m.group("indent") + (m.group("vis") or "") + "use "
+        out = []
+        if keep:
+            out.append(head + "std::{" + ", ".join(_render(l) for l in keep) + "};")
+        out.append(head + PLAT + "::{" + ", ".join(_render(l) for l in move) + "};")
+        return "\n".join(out)
+
+    text = USE_RE.sub(repl, text)
+    # fully qualified mentions outside use statements
+    for r in rules:
+        path = "::".join(r)
+        text = re.sub(r"(?<![A-Za-z0-9_:])std::" + re.escape(path) + r"\b", PLAT + "::" + path, text)
+    if extra:
+        # after the last top-level `use` line of the leading import block
+        m = re.search(r"^use [^;]*;", text, re.M)
+        ins = "".join(f"#[allow(unused_imports)]\nuse {PLAT}::{e};\n" for e in extra)
+        if m:
+            text = text[:m.start()] + ins + text[m.start():]
+        else:
+            text = ins + text
+    return text, moved_total
+
 
 # Harness modules mounted into the generated tree: (crate, file, module name, harness file)
 MOUNTS = [
@@ -137,8 +214,12 @@ def _copy_crate(name, digest, mounts_enabled, tree=None, kani_override=None):
     src_root = os.path.join(REPO, "crates", name)
     dst_root = os.path.join(tree, "crates", name)
     wanted = set()
-    red = [(f, a, b) for (c, f, a, b) in REDIRECTS if c == name]
-    hit = {i: 0 for i in range(len(red))}
+    expected = set()
+    if name == "rawdb":
+        expected = {"lib.rs", "regions.rs", "region.rs", "layout.rs", "mmap.rs"}
+    elif name == "vecdb":
+        expected = set(VEC_RULES)
+    seen_moved = {}
     for dirpath, dirs, files in os.walk(os.path.join(src_root, "src")):
         for fn in files:
             sp = os.path.join(dirpath, fn)
@@ -149,15 +230,14 @@ def _copy_crate(name, digest, mounts_enabled, tree=None, kani_override=None):
             digest.update(data)
             if fn.endswith(".rs"):
                 text = data.decode()
-                for i, (f, a, b) in enumerate(red):
-                    if f == relsrc:
-                        n = text.count(a)
-                        if n != 1:
-                            raise MachineryError(
-                                f"gentree anchor missing: {name}/src/{f}: expected exactly one "
-                                f"occurrence of {a[:60]!r}..., found {n}")
-                        text = text.replace(a, b.replace("PLAT", PLAT))
-                        hit[i] += 1
+                rules, extra = None, ()
+                if name == "rawdb" and relsrc not in RAW_SKIP:
+                    rules, extra = RAW_MOVED, RAW_EXTRA.get(relsrc, ())
+                elif name == "vecdb" and relsrc in VEC_RULES:
+                    rules = VEC_RULES[relsrc]
+                if rules:
+                    text, nmoved = redirect_imports(text, rules, extra)
+                    seen_moved[relsrc] = nmoved
                 for (c, f, mod, hf) in MOUNTS:
                     if c == name and f == relsrc and mounts_enabled:
                         hpath = os.path.join(VERIF, hf)
@@ -171,9 +251,10 @@ def _copy_crate(name, digest, mounts_enabled, tree=None, kani_override=None):
             dp = os.path.join(dst_root, rel)
             wanted.add(dp)
             _write_if_changed(dp, data)
-    for i, n in hit.items():
-        if n != 1:
-            raise MachineryError(f"gentree anchor missing: {name}/src/{red[i][0]} (file not found)")
+    for f in expected:
+        if not seen_moved.get(f):
+            raise MachineryError(f"gentree anchor missing: {name}/src/{f}: no std import to redirect to the platform model "
+                                 f"(file moved or no longer uses the redirected std items)")
     # README referenced by include_str!
     for extra in ("README.md",):
         sp = os.path.join(src_root, extra)
